@@ -16,6 +16,7 @@ import (
 	"github.com/teleport-network/teleport/syscontracts"
 	erc20contracts "github.com/teleport-network/teleport/syscontracts/erc20"
 	stakingcontract "github.com/teleport-network/teleport/syscontracts/staking"
+	agentcontract "github.com/teleport-network/teleport/syscontracts/xibc_agent"
 	endpointcontract "github.com/teleport-network/teleport/syscontracts/xibc_endpoint"
 	packetcontract "github.com/teleport-network/teleport/syscontracts/xibc_packet"
 	xibctmtypes "github.com/teleport-network/teleport/x/xibc/clients/light-clients/tendermint/types"
@@ -272,7 +273,7 @@ type SendSpec struct {
 	Callback bool
 }
 
-func (w *World) callData(dst string, call string) (string, []byte) {
+func (w *World) callData(src, dst string, call string) (string, []byte) {
 	switch call {
 	case "", "none":
 		return "", nil
@@ -282,6 +283,11 @@ func (w *World) callData(dst string, call string) (string, []byte) {
 	case "revert":
 		// the execute contract holds no tokens: the inner call reverts
 		return strings.ToLower(w.Origin[dst].String()), mustPack(erc20ABI, "transfer", w.Marker, big.NewInt(1_000_000_000))
+	case "nestfail":
+		// the agent contract forwards the received tokens to a chain for which dst has no light client:
+		// the nested send fails in the post-transaction hook
+		return strings.ToLower(syscontracts.AgentContractAddress), mustPack(agentcontract.AgentContract.ABI, "send",
+			w.Wrap[dst][src], strings.ToLower(w.Marker.String()), "unknown-chain", big.NewInt(1))
 	case "hookfail":
 		// EVM execution succeeds and emits the staking event; the native action (unknown validator) fails in the post-tx hook
 		return strings.ToLower(syscontracts.StakingContractAddress), mustPack(stakingcontract.StakingContract.ABI, "delegate", "invalid-validator", big.NewInt(1))
@@ -304,10 +310,13 @@ func (w *World) Send(s SendSpec) TxResult {
 	case "back":
 		token = w.Wrap[s.Src][s.Dst]
 	}
-	contractAddr, cd := w.callData(s.Dst, s.Call)
+	contractAddr, cd := w.callData(s.Src, s.Dst, s.Call)
 	recv := ""
 	if s.Kind != "none" {
 		recv = strings.ToLower(userOf(w, s.Dst).Eth.String())
+		if s.Call == "nestfail" {
+			recv = strings.ToLower(syscontracts.AgentContractAddress) // the agent receives the tokens it is asked to forward
+		}
 	}
 	data := packettypes.CrossChainData{DstChain: dstID, TokenAddress: token, Receiver: recv, Amount: big.NewInt(s.Amt),
 		ContractAddress: contractAddr, CallData: cd, CallbackAddress: zeroAddr, FeeOption: 0}
@@ -641,7 +650,7 @@ func (w *World) Project(n string) M {
 		k := w.key(pa.SrcChain, pa.DstChain, pa.Sequence)
 		acks = append(acks, []interface{}{w.absName(pa.SrcChain), w.absName(pa.DstChain), pa.Sequence, w.ackCode(k, hex.EncodeToString(pa.Data))})
 	}
-	seq, cseq, out, bind, wbal, wsup, clients := M{}, M{}, M{}, M{}, M{}, M{}, M{}
+	seq, cseq, out, bind, wbal, wsup, clients, wlock := M{}, M{}, M{}, M{}, M{}, M{}, M{}, M{}
 	status, fees := [][]interface{}{}, [][]interface{}{}
 	user := c.Accts[AcctUser]
 	for _, d := range w.Names {
@@ -656,6 +665,8 @@ func (w *World) Project(n string) M {
 		bind[d] = w.bindAmount(c, w.Wrap[n][d], did)
 		wbal[d] = w.viewBig(c, erc20ABI, w.Wrap[n][d], "balanceOf", user.Eth)
 		wsup[d] = w.viewBig(c, erc20ABI, w.Wrap[n][d], "totalSupply")
+		wlock[d] = w.viewBig(c, erc20ABI, w.Wrap[n][d], "balanceOf", endpAddr) + w.viewBig(c, erc20ABI, w.Wrap[n][d], "balanceOf", packetAddr) +
+			w.viewBig(c, erc20ABI, w.Wrap[n][d], "balanceOf", common.HexToAddress(syscontracts.AgentContractAddress))
 		for s := int64(1); s < ns; s++ {
 			status = append(status, []interface{}{n, d, s, w.viewBig(c, packetABI, packetAddr, "getAckStatus", did, uint64(s))})
 			fo, err := c.View(packetABI, packetAddr, "packetFees", []byte(did+"/"+strconv.FormatInt(s, 10)))
@@ -681,7 +692,7 @@ func (w *World) Project(n string) M {
 	}
 	org := w.Origin[n]
 	return M{"h": len(w.AbsH[n]) - 1, "seq": seq, "cseq": cseq, "commits": commits, "receipts": receipts, "acks": acks,
-		"out": out, "bind": bind, "wbal": wbal, "wsup": wsup, "status": status, "fees": fees, "clients": clients,
+		"out": out, "bind": bind, "wbal": wbal, "wsup": wsup, "wlock": wlock, "status": status, "fees": fees, "clients": clients,
 		"ubal":   w.viewBig(c, erc20ABI, org, "balanceOf", user.Eth),
 		"rbal":   w.viewBig(c, erc20ABI, org, "balanceOf", c.Accts[AcctRelayer].Eth),
 		"held":   w.viewBig(c, erc20ABI, org, "balanceOf", packetAddr),
